@@ -382,6 +382,24 @@ pub fn mutants(p: &Parent) -> Vec<Mutant> {
         v.insert(first_code, format!("macro ldq(v) -> {} <-", body));
         push("constant-out-of-range", format!("macro body '{}' used with argument {}", body, arg), v, at + 1);
     }
+    // the text 'def NAME' inside a string defines nothing: calling NAME is calling something that is not a procedure
+    for (k, (strline, call)) in [("msg_q: db \"def handler_q missing\"", "call handler_q"), ("DB \"DEF nosuch_p { }\"", "CALL nosuch_p"), ("note_q: dw \"def L1 {\"", "call note_q")].iter().enumerate() {
+        let mut v = b.clone();
+        let at = if k % 2 == 0 { p.live_pos } else { n };
+        v.insert(at.min(v.len()), call.to_string());
+        v.insert(0, strline.to_string());
+        push("call-non-procedure", format!("'{}' with the data line '{}'", call, strline), v, at + 1);
+    }
+    // a macro used, then redefined with a body that is not valid, then used again with the same arguments
+    for (k, bad) in ["in al, p", "mov ax, bl", "mov al, 300", "jmp d_0", "lock"].iter().enumerate() {
+        let mut v = b.clone();
+        let at = if k % 2 == 0 { p.live_pos } else { n };
+        v.insert(at.min(v.len()), "port_q(5)".to_string());
+        v.insert(at.min(v.len()), format!("macro port_q(p) -> {} <-", bad));
+        v.insert(at.min(v.len()), "port_q(5)".to_string());
+        v.insert(first_code, "macro port_q(p) -> mov dh, p <-".to_string());
+        push(if *bad == "mov al, 300" { "constant-out-of-range" } else if *bad == "mov ax, bl" { "mixed-operand-sizes" } else if *bad == "jmp d_0" { "jump-to-data-label" } else { "unsupported-instruction" }, format!("macro redefined with the body '{}' between two identical uses", bad), v, at + 2);
+    }
     // one use of a macro whose body holds several jumps, only one of them to an undefined label (all jumps of one use
     // are recorded at the position of that use)
     for (k, (body, args)) in [
